@@ -1,6 +1,8 @@
 """C11 - binary and hex strings are faithful images of the code and parse back to it."""
 from . import strings, routes
 
+from . import routes, fresh, flags, sizes, conv, dtype, carriers, funcs, ops, strings, pipeline, widths
+
 EXPLANATION = (
     "R1 width provenance at every render site of bin() (10 binary_repr calls) and hex() (6 hex_repr calls): n_word=self.n_word, the code as Python int(s), the point at n_frac "
     "exactly when frac_dot (conditional, not an and/or idiom that drops 0), hex digits taken from the n_word-bit binary image with base=2; R2 hex_repr: width ceil(n_word/4) as a "
@@ -20,3 +22,6 @@ def run(ck):
     strings.parse_dispatch(ck, "C11.R5")
     strings.string_arms(ck, "C11.R6")
     routes.write_funnel(ck, "C01.R1")
+    fresh.constructor_state(ck, "C20.R2")            # prefixes and modes used by bin()/hex() and by the parsing constructor are the object's own
+    pipeline.rounding_table(ck, "C05.R1", "C05.R2", "C05.R3")   # value-mode round trip: the parsed value is re-quantized by the configured mode
+    pipeline.overflow_dispatch(ck, "C02.R6", "C03.R2", flags.handler_roles_quiet(ck.prog))
